@@ -114,7 +114,8 @@ def equiv_variant(path):
 
 def main():
     if len(sys.argv) > 1 and sys.argv[1] == "equiv":
-        paths = sorted(glob.glob(VERIF + "/mutants/equiv/*.diff"))
+        pat = sys.argv[2] if len(sys.argv) > 2 and not sys.argv[2].startswith("--") else "*"
+        paths = sorted(glob.glob(VERIF + "/mutants/equiv/" + pat + ".diff"))
         with concurrent.futures.ThreadPoolExecutor(max_workers=5) as ex:
             rs = list(ex.map(equiv_variant, paths))
         for r in rs:
